@@ -16,14 +16,14 @@ CHECKS.update({
              text="Bounded symbolic model checking: the fields reported along the best path (log-probability, length, observation distance, accumulated distances) equal an independently re-derived model value on every path of the real code within the bounds; update() carries over every slot of the winner for all matching classes (token identity, and value equality for arbitrary symbolic numeric fields).",
              note="Reals for symbolic values; AbsMap contract; tolerance 1e-8; graphs <=4 nodes, T<=3, histories of <=3 operations; incomplete enumerations flagged per instance."),
  'C07': dict(tech="symbolic execution of real LatticeColumn.prune against an independent specification + relational symbolic execution of match() with/without width and widening sequences (z3 LRA/NRA)", ref="5/C07",
-             text="Bounded symbolic model checking of prune (all weak orderings incl. exact ties of n<=4(5) symbolic scores, stop/delayed/threshold variants) and of pruned-vs-unpruned / widening monotonicity over abstract geometry.",
+             text="Bounded symbolic model checking of prune (all weak orderings incl. exact ties of n<=4(5) symbolic scores, stop/delayed/threshold variants) and of pruned-vs-unpruned / widening monotonicity over abstract geometry; after the last operation of every width sequence the expanded candidates of each observation are the W most probable live ones (plus exact ties) and no postponed one is more probable.",
              note="Reals; column size and graph/trace bounds as listed in evidence; AbsMap contract."),
 })
 CHECKS.update({
  'C03': dict(tech="symbolic execution of real match() (unique on/off in one path) over abstract geometry with symbolic cut-offs; alignment claims + index truthfulness against an admissible-walk oracle (z3)", ref="5/C03",
-             text="Bounded symbolic model checking: on every path of the real match() within the bounds the best path visits the observations in order with one emitting state each, the returned list is that path (collapsed iff unique), and the index / empty result agree with the existence of admissible walks; the same at DEBUG log level.",
+             text="Bounded symbolic model checking: on every path of the real match() within the bounds the best path visits the observations in order with one emitting state each, the returned list is that path (collapsed iff unique), and the index / empty result agree with the existence of admissible walks; the same at DEBUG log level and for the results of extension / widening calls.",
              note="Reals; AbsMap contract; index truthfulness only emitting-only & unpruned; graphs <=4 nodes, T<=3."),
- 'C04': dict(tech="symbolic execution of real match()/widen/extend over abstract geometry, and of match / map change / match on the real InMemMap with symbolic observations, against an adjacency oracle from the graph dictionary; CrossHair on node_path_to_only_nodes", ref="5/C04",
+ 'C04': dict(tech="symbolic execution of real match()/widen/extend over abstract geometry, and of match / map change / match on the real InMemMap with symbolic observations (incl. the map's own neighbour queries against its graph and link table), against an adjacency oracle from the graph dictionary; CrossHair on node_path_to_only_nodes", ref="5/C04",
              text="Bounded symbolic model checking: every state on every reachable best path exists in the map and consecutive states are moves the map offers (incl. linked pair, one-way, dead ends, self-listing on/off); nodes-only view computed by the real code is adjacent and repeat-free; CrossHair confirms node_path_to_only_nodes over all int labels for the stated sequence shapes.",
              note="AbsMap mirrors InMemMap's neighbour listing (the real InMemMap neighbour queries run in the real-map instances: oneway3/oneway4/line3, del_node / purge / add_node between two matches); SqliteMap neighbour relation is covered by C12; graphs <=4-5 nodes."),
  'C09': dict(tech="symbolic execution of operation sequences with the invariant asserted after every operation; inductive-step harness on LatticeColumn.upsert; z3 QF_FP lemma generated from the AST of BaseMatching.next", ref="5/C09",
@@ -37,7 +37,7 @@ CHECKS.update({
  'C08': dict(tech="relational symbolic execution: incremental schedule vs one-shot match of the real matcher in one path over abstract geometry (z3)", ref="5/C08",
              text="Bounded symbolic model checking: every one- and two-cut extension schedule gives the same index and probability (path up to exact ties) as a fresh one-shot match, cut-offs symbolic, lattice width None/1/2.",
              note="Reals; AbsMap contract; T<=4 on 2-edge graphs else 3."),
- 'C10': dict(tech="relational symbolic execution under engine-chosen iteration/listing orders (values_all stub, edge/node/neighbour listing) in one path; relational inductive step on _match_non_emitting_states with the columns filed in two orders, incl. routes that reconverge inside the non-emitting search (z3)", ref="5/C10",
+ 'C10': dict(tech="relational symbolic execution under engine-chosen iteration/listing orders (values_all stub, edge/node/neighbour listing) in one path; relational inductive step on _match_non_emitting_states with the columns filed in two orders, incl. routes that reconverge inside the non-emitting search; second run with re-salted hashes of the lattice entries (z3)", ref="5/C10",
              text="Bounded symbolic model checking: for every permutation of set iteration order and map listing order within the bounds the index and probability coincide (paths only differ on exact ties).",
              note="LatticeColumn.values_all replaced by an order-parametrised stub that over-approximates hash order; AbsMap contract."),
  'C19': dict(tech="relational symbolic execution of real match() at ERROR and DEBUG level in one path over abstract geometry; relational inductive step on _match_non_emitting_states at both levels (z3)", ref="5/C19",
@@ -76,7 +76,7 @@ CHECKS.update({
              note="2-4 integer-labelled nodes; matcher part on a concrete unit-square layout with symbolic observations; float32 band 2^-21 relative."),
 })
 CHECKS.update({
- 'C14': dict(tech="symbolic execution of the real dist_latlon functions in an exact angle algebra ((sin,cos) pairs over z3 reals), identities against 3-D unit vectors decided by z3 nlsat; segment-to-segment structure over stand-ins with the real planar kernel; replay on doubles against an independent vector computation", ref="5/C14",
+ 'C14': dict(tech="symbolic execution of the real dist_latlon functions in an exact angle algebra ((sin,cos) pairs over z3 reals), identities against 3-D unit vectors decided by z3 nlsat; segment-to-segment structure over stand-ins with the real planar kernel; replay on doubles against an independent vector computation; concrete fallback grid for box_around_point only when a tree's box computation cannot be encoded", ref="5/C14",
              text="Bounded/partial symbolic checking: haversine distance = great-circle angle (all points); destination inverts distance and bearing; box_around_point contains the disc in latitude (longitude bounds and parts of point-to-segment are attempted and reported inconclusive when nlsat returns unknown); point-to-segment distance/point consistency and end-point swap on the decided paths; on equatorial / meridian segments of ~3 m and near segment ends additionally: no point of the segment is nearer than the reported one.",
              note="Exact reals; ti as a ratio of angles only through 0/1 clamping; the centimetre agreement of the planar-frame segment-to-segment routine is outside (transcendental error bound); inconclusive paths are counted, never reported as passes."),
 })
